@@ -229,6 +229,29 @@ func BuildVMModel(p *core.Program) (*VMModel, string) {
 	for _, fd := range p.FuncDecls("vm") {
 		if core.RecvName(fd) == "VM" && fd.Body != nil && fd != m.Run {
 			if f, ok := info.Defs[fd.Name].(*types.Func); ok {
+				// a value receiver works on a copy: its writes to the machine are lost, so its
+				// body is not part of the handler that calls it
+				if len(fd.Recv.List) == 1 {
+					if _, isPtr := fd.Recv.List[0].Type.(*ast.StarExpr); !isPtr {
+						writes := false
+						ast.Inspect(fd.Body, func(n ast.Node) bool {
+							if as, ok := n.(*ast.AssignStmt); ok {
+								for _, l := range as.Lhs {
+									if sel, ok := Unparen(l).(*ast.SelectorExpr); ok {
+										if s := info.Selections[sel]; s != nil && s.Kind() == types.FieldVal {
+											writes = true
+										}
+									}
+								}
+							}
+							return true
+						})
+						if writes {
+							m.Problems = append(m.Problems, "method "+fd.Name.Name+" has a value receiver and assigns fields of the machine: the assignments are lost")
+							continue
+						}
+					}
+				}
 				vmMethods[f] = fd
 			}
 		}
